@@ -393,12 +393,22 @@ def run_asm(case: dict):
             loop, cfg, enable_rate_limiting=rl is not None,
             rate_limit_config=None if rl is None else RateLimitConfig(capacity=rl, refill_rate=0.001),
             access_control_config=acc, certificate_auth_config=cac)
-        probe = factory()
-        inner = probe if sslctx is not None else probe.inner_protocol_factory()
-        chain = inner.middleware
         log = []
-        if chain is not None:
-            chain.middlewares.append(Recorder(log, loop))
+        # a recorder behind the server's own components sees with which arguments the chain is consulted. It is hooked
+        # into the chain object where that offers a list of components; a tree that keeps its chain elsewhere is still
+        # judged on what the client receives, only without the recorder's clauses
+        chain = None
+        try:
+            probe = factory()
+            inner = probe if sslctx is not None else probe.inner_protocol_factory()
+            chain = inner.middleware
+            if chain is not None:
+                if not isinstance(getattr(chain, "middlewares", None), list):
+                    chain = None
+                else:
+                    chain.middlewares.append(Recorder(log, loop))
+        except AttributeError:
+            chain = None
         v = ssl.TLSVersion.TLSv1_2 if case["tls"] == "1.2" else ssl.TLSVersion.TLSv1_3
         if case.get("prior"):
             # an earlier connection of another client (possibly a certificate with the same issuer and serial number)
@@ -525,12 +535,13 @@ def run_overlap(case: dict):
         up = srvsim.build_upload(sim, {"kind": "value", "status": 20, "meta": "text/gemini", "body": "STORED"})
         real = _real_components(case)
         specs = [{**c, "name": c.get("_key")} if c["kind"] == "real" else c for c in case["chain"]]
-        mw = srvsim.build_middleware(sim, specs, real)
-        if case.get("nested") and len(mw.middlewares) >= 1:
-            from nauyaca.server.middleware import MiddlewareChain
+        comps = srvsim.build_components(sim, specs, real)
+        from nauyaca.server.middleware import MiddlewareChain
 
-            k = min(case["nested"], len(mw.middlewares))
-            mw = MiddlewareChain([MiddlewareChain(list(mw.middlewares[:k])), *mw.middlewares[k:]])
+        mw = MiddlewareChain(comps)
+        if case.get("nested") and len(comps) >= 1:
+            k = min(case["nested"], len(comps))
+            mw = MiddlewareChain([MiddlewareChain(list(comps[:k])), *comps[k:]])
         trs, fed = [], []
         for i, c in enumerate(case["conns"]):
             tr = FakeTransport(loop, peername=(c["peer"], 50000 + i), peer_der=certs.get(c["cert"]).der if c["cert"] else None)
